@@ -52,6 +52,8 @@ def sample_cases(exports, rnd, budget):
         last = e["path"][-1]
         if last["m"] in ("fund", "wait", "longwait") or dev(e["c"], last) == 0:
             keep.append(e)
+        elif last["arg"] in ("toself", "tosender") and dev(e["c"], last) == 1:
+            keep.append(e)     # the recipient is the contract itself / the sender: in every lifecycle state
         else:
             groups[(e["c"], e["w"], json.dumps(e["path"][:-1]))].append(e)
     keys = sorted(groups)
@@ -373,6 +375,8 @@ def main(ctx):
         cnt["fail_after_writes"] += (not x["rc"]["success"]) and e["sh"]["ran"] and e["sh"]["ok"] and bool(e["sh"]["writes"])
         cnt["escrow_refund"] += (not x["rc"]["success"]) and bool(x["tx"]["amount"]) and (x["tx"]["kind"] == "call" or x["tx"]["wasm"])
         cnt["out_of_gas"] += (not x["rc"]["success"]) and "gas" in x["err"].lower()
+        # the maximum fee is not a whole number of gas units and the run used up everything it bought (truncation boundary)
+        cnt["out_of_gas_with_fee_remainder"] += (not x["rc"]["success"]) and "gas" in x["err"].lower() and x["op"]["gas"] in ("smallhalf", "smallrem")
     # blocks with several transactions
     blkl = []
     for x in rows:
@@ -401,7 +405,7 @@ def main(ctx):
             "prefunded_subdeploy_ok", "prefunded_in_same_block", "funded_in_same_tx_subdeploy_ok"]
     need += ["sandwich_two_successes", "sandwich_three_contract_txs", "sandwich_first_ok_last_fails", "sandwich_embedded_and_wasm",
             "sandwich_env_move_then_embedded_success", "sandwich_outside_change_between", "sandwich_own_sender_paid"]
-    need += ["wasm_ok", "wasm_fail", "subcall", "wasm_transfer", "wasm_burn", "burn", "term", "stake_move", "transfer", "pair", "fail_after_writes", "escrow_refund", "out_of_gas"]
+    need += ["wasm_ok", "wasm_fail", "subcall", "wasm_transfer", "wasm_burn", "burn", "term", "stake_move", "transfer", "pair", "fail_after_writes", "escrow_refund", "out_of_gas", "out_of_gas_with_fee_remainder"]
     need += [(c, True) for c in EMBEDDED] + [(c, False) for c in EMBEDDED]
     dead = [str(k) for k in need if not cnt[k]]
     if dead:
